@@ -125,6 +125,32 @@ pub fn record(args: &Args) {
             events += record_profile(&mut out, &game, &tr, "truncated");
             runs += 1;
         }
+        // imported profiles whose weights span many orders of magnitude: probabilities far below one ulp of
+        // 1.0 are still positive and must be listed (and counted) like any other
+        {
+            let named: [Vec<(String, Vec<(String, f64)>)>; 2] = {
+                let base = tree::named(&t, &tree::gen_profile(&mut r, &t, 2, false));
+                let mut k = 0usize;
+                base.map(|side| {
+                    side.into_iter()
+                        .map(|(info, acts)| {
+                            let acts = acts
+                                .into_iter()
+                                .map(|(a, w)| {
+                                    k += 1;
+                                    (a, if k % 3 == 0 { w * 1e-20 } else if k % 7 == 0 { w * 1e-300 } else { w })
+                                })
+                                .collect();
+                            (info, acts)
+                        })
+                        .collect()
+                })
+            };
+            if let Ok(strat) = game.from_named(named) {
+                events += record_profile(&mut out, &game, &strat, "imported-tiny");
+                runs += 1;
+            }
+        }
         // solver output
         let method = [SolveMethod::Full, SolveMethod::Sampled, SolveMethod::External][(id % 3) as usize];
         let iters = [0u64, 1, 5, 50][((id / 3) % 4) as usize];
